@@ -257,6 +257,9 @@ Arguments a_lang {D}. Arguments a_filename {D}. Arguments a_branch {D}. Argument
 Arguments a_repo_re {D}. Arguments a_repo_name {D}. Arguments a_repo_id {D}. Arguments a_repo_meta {D}.
 Arguments a_repo_rc {D}.
 
+(** uint8(r)&mask == uint8(r): the RawConfig query is truncated to 8 bits at both of its use sites *)
+Definition rc_match (m rc : N) : bool := let m8 := N.land m 255 in N.eqb (N.land m8 rc) m8.
+
 Definition sel_fc {D} (f : bool -> D -> bool) (fn ct : bool) (d : D) : bool :=
   if Bool.eqb fn ct then f true d || f false d else if fn then f true d else f false d.
 
@@ -280,7 +283,7 @@ Fixpoint eval {D} (e : atoms D) (q : Q) (d : D) : bool :=
   | QBoost _ c => eval e c d
   | QBranch p ex => a_branch e p ex d
   | QMeta f re => a_repo_meta e f re d
-  | QRawConfig m => N.eqb (N.land m (a_repo_rc e d)) m
+  | QRawConfig m => rc_match m (a_repo_rc e d)
   | QAnd cs => forallb (fun c => eval e c d) cs
   | QOr cs => existsb (fun c => eval e c d) cs
   | QNot c => negb (eval e c d)
@@ -294,3 +297,118 @@ Record atoms_ok {D} (e : atoms D) : Prop := {
   ok_regexp_empty : forall re cs nm d, rx_op re = OpEmptyMatch -> a_regexp e re cs nm d = true;
   ok_branch_empty : forall ex d, a_branch e [] ex d = true;
 }.
+
+(** ------------------------------------------------------------------ index/eval.go: indexData.simplify *)
+
+(** The part of a shard that simplify reads: the repository metadata (live and tombstoned) and the
+    keys of metaData.LanguageMap.  (IndexFeatureVersion >= 12 is assumed: the < 12 language
+    fallback is not modelled; this code base only writes version 12.) *)
+Record repo := {
+  r_tomb : bool;
+  r_id : N;
+  r_name : str;
+  r_rc : N;                        (* encodeRawConfig(RawConfig) *)
+  r_meta : list (str * str);       (* Metadata map (nil = empty) *)
+}.
+Record shard := { sh_repos : list repo; sh_langs : list str }.
+
+Definition mem_str (x : str) (l : list str) : bool := existsb (str_eqb x) l.
+Definition mem_N (x : N) (l : list N) : bool := existsb (N.eqb x) l.
+(** Go map[string]bool lookup on the pair-list representation (keys are unique in a Go map) *)
+Definition set_lookup (s : list (str * bool)) (k : str) : bool :=
+  existsb (fun nb => snd nb && str_eqb (fst nb) k) s.
+Fixpoint meta_lookup (m : list (str * str)) (k : str) : option str :=
+  match m with
+  | [] => None
+  | (k', v) :: r => if str_eqb k' k then Some v else meta_lookup r k
+  end.
+
+Section Shard.
+  (** the regexp engine (grafana/regexp MatchString) is external: source -> subject -> bool *)
+  Variable re_match : str -> str -> bool.
+
+  Definition simplifyMultiRepo (sh : shard) (q : Q) (pred : repo -> bool) : Q :=
+    let alive := filter (fun r => negb (r_tomb r)) (sh_repos sh) in
+    let count := length (filter pred alive) in
+    if Nat.eqb count (length alive) then QConst true
+    else if Nat.ltb 0 count then q
+    else QConst false.
+
+  Definition meta_pred (f re : str) (r : repo) : bool :=
+    match meta_lookup (r_meta r) f with Some v => re_match re v | None => false end.
+
+  Definition shard_simplify_atom (sh : shard) (q : Q) : Q :=
+    match q with
+    | QRepo re => simplifyMultiRepo sh q (fun r => re_match re (r_name r))
+    | QRepoRegexp re => simplifyMultiRepo sh q (fun r => re_match re (r_name r))
+    | QBranchesRepos l =>
+        if existsb (fun r => existsb (fun br => mem_N (r_id r) (snd br)) l) (sh_repos sh)
+        then q else QConst false
+    | QRepoSet s => simplifyMultiRepo sh q (fun r => set_lookup s (r_name r))
+    | QRawConfig m => simplifyMultiRepo sh q (fun r => rc_match m (r_rc r))
+    | QRepoIDs ids => simplifyMultiRepo sh q (fun r => mem_N (r_id r) ids)
+    | QLanguage l => if mem_str l (sh_langs sh) then q else QConst false
+    | QMeta f re => simplifyMultiRepo sh q (meta_pred f re)
+    | _ => q
+    end.
+
+  Definition shard_simplify (sh : shard) (q : Q) : Q := Simplify (qmap (shard_simplify_atom sh) q).
+
+  (** atoms of the documents of a shard: the repository-level predicates are computed from the
+      metadata of the document's repository ([repo_of d] = index into sh_repos); everything else
+      comes from [base]. *)
+  Definition on_repo {D} (sh : shard) (repo_of : D -> nat) (p : repo -> bool) (d : D) : bool :=
+    match nth_error (sh_repos sh) (repo_of d) with Some r => p r | None => false end.
+
+  Definition shard_atoms {D} (base : atoms D) (sh : shard) (repo_of : D -> nat) : atoms D :=
+    {| a_substr := a_substr base; a_regexp := a_regexp base; a_symbol := a_symbol base;
+       a_case := a_case base; a_lang := a_lang base; a_filename := a_filename base;
+       a_branch := a_branch base; a_onbranch := a_onbranch base;
+       a_repo_re := fun re => on_repo sh repo_of (fun r => re_match re (r_name r));
+       a_repo_name := fun n => on_repo sh repo_of (fun r => str_eqb n (r_name r));
+       a_repo_id := fun id => on_repo sh repo_of (fun r => N.eqb id (r_id r));
+       a_repo_meta := fun f re => on_repo sh repo_of (meta_pred f re);
+       a_repo_rc := fun d => match nth_error (sh_repos sh) (repo_of d) with Some r => r_rc r | None => 0%N end |}.
+
+  (** Search only evaluates the query on documents of repositories that are not tombstoned *)
+  Definition live {D} (sh : shard) (repo_of : D -> nat) (d : D) : Prop :=
+    exists r, nth_error (sh_repos sh) (repo_of d) = Some r /\ r_tomb r = false.
+  (** shard invariant: LanguageMap has a key for the language of every document *)
+  Definition langs_closed {D} (base : atoms D) (sh : shard) : Prop :=
+    forall l d, a_lang base l d = true -> mem_str l (sh_langs sh) = true.
+End Shard.
+
+(** ------------------------------------------------------------------ correspondence runner *)
+
+Fixpoint table_lookup (t : list (str * str * bool)) (re s : str) : bool :=
+  match t with
+  | [] => false
+  | (re', s', b) :: r => if str_eqb re' re && str_eqb s' s then b else table_lookup r re s
+  end.
+
+Definition mk_repo (t : bool * N * str * N * list (str * str)) : repo :=
+  let '(tomb, id, name, rc, meta) := t in
+  {| r_tomb := tomb; r_id := id; r_name := name; r_rc := rc; r_meta := meta |}.
+
+(** One case = the rewrite that was run on the implementation, its input tree and the tree the
+    implementation returned. *)
+Inductive c05case : Type :=
+| CSimplify (q out : Q)                      (* query.Simplify *)
+| CExpand (q out : Q)                        (* query.Map(q, query.ExpandFileContent) *)
+| CShard (repos : list (bool * N * str * N * list (str * str))) (langs : list str)
+         (retab : list (str * str * bool)) (q out : Q)      (* indexData.simplify *)
+| CEvalConst (q out : Q)                     (* query.evalConstants *)
+| CFlatten (q out : Q) (changed : bool)      (* query.flatten (one round) *)
+| CStrip (q out : Q).                        (* query.stripCaseScopes *)
+
+Definition c05_ok (c : c05case) : bool :=
+  match c with
+  | CSimplify q out => q_eqb (Simplify q) out
+  | CExpand q out => q_eqb (qmap ExpandFileContent q) out
+  | CShard repos langs retab q out =>
+      q_eqb (shard_simplify (table_lookup retab) {| sh_repos := map mk_repo repos; sh_langs := langs |} q) out
+  | CEvalConst q out => q_eqb (evalConstants q) out
+  | CFlatten q out chg => let (o, c) := flatten q in q_eqb o out && Bool.eqb c chg
+  | CStrip q out => q_eqb (stripCaseScopes q) out
+  end.
+Definition c05_mismatches (cs : list c05case) : list N := bad_indexes c05_ok cs.
